@@ -83,6 +83,17 @@ pub fn valid_updates() -> Vec<Update> {
             insert: Some(vec![dq(v("s"), i(P), T::Bnode("n".into())), dq(T::Bnode("n".into()), i(P), v("o"))]),
             pattern: bgp(vec![tp(v("s"), i(P), i(C))]),
         },
+        // identical solutions in the WHERE multiset: every solution still gets its own blank node
+        Update::Modify {
+            delete: None,
+            insert: Some(vec![dq(T::Bnode("m".into()), i(P), v("s"))]),
+            pattern: Group(vec![Elem::Union(vec![bgp(vec![tp(v("s"), i(P), i(B))]), bgp(vec![tp(v("s"), i(P), i(B))])])]),
+        },
+        Update::Modify {
+            delete: None,
+            insert: Some(vec![gq(i(G1), v("s"), i(P), T::Bnode("k".into()))]),
+            pattern: Group(vec![Elem::Values(vec!["s".into()], vec![vec![Some(i(A))], vec![Some(i(A))]])]),
+        },
         // unbound template variable: skipped per solution
         Update::Modify { delete: None, insert: Some(vec![dq(v("s"), i(P), v("nb")), dq(v("s"), i(P), i(A))]), pattern: bgp(vec![tp(v("s"), i(P), i(B))]) },
         // variable bound to a literal in subject position: skipped per solution
